@@ -17,6 +17,8 @@ import random
 import time
 import traceback
 
+import re
+
 import z3
 
 import denote
@@ -70,6 +72,16 @@ def roundtrip(task):
         text = task.get("text")
         if text is None:
             text = open(task["path"], encoding="utf-8").read()
+        other = task.get("after_other")
+        if other is not None:
+            # this process handled another domain first (parsed, exported, parsed again): same names, other types / bodies.
+            # Whatever happens to that one is not this task's subject; the round trip below must not depend on it.
+            try:
+                if not other.lstrip().startswith("("):
+                    other = open(other, encoding="utf-8").read()
+                lib.parse_domain(export_text(lib.parse_domain(other)))
+            except Exception:  # noqa
+                pass
         try:
             d1 = lib.parse_domain(text)
         except Exception as e:  # noqa -- not a C08 matter (C01): skip
@@ -183,7 +195,16 @@ def generated_tasks(tier, seed):
             const2 = False
         text = G.domain_text([("act", G.PARAM_LISTS[pl], pre, eff)], const=const or const2)
         tasks.append({"text": text, "label": f"pre {sexpr.render(pre)} eff {sexpr.render(eff)}", "objects": dict(G.OBJECTS)})
+        if i % 5 == 0:
+            tasks.append({"text": text, "label": f"[after the same domain with the roles of t1 and t2 exchanged] pre {sexpr.render(pre)} "
+                                                  f"eff {sexpr.render(eff)}", "objects": dict(G.OBJECTS), "after_other": swapped_types(text)})
     return tasks
+
+
+def swapped_types(text: str) -> str:
+    """the same domain text with the names t1 and t2 exchanged everywhere: every predicate, function and parameter keeps its
+    name but is declared over the other type"""
+    return re.sub(r"\bt([12])\b", lambda m: "t2" if m.group(1) == "1" else "t1", text)
 
 
 def repo_domain_tasks():
@@ -201,6 +222,12 @@ def repo_domain_tasks():
             continue
         seen.add(key)
         tasks.append({"path": p, "label": "repo file " + os.path.relpath(p, lib.REPO)})
+    # the repository's domains are variants of one another (same function and predicate names over other types): each one
+    # again, after the process handled its neighbour
+    for i, t in enumerate(list(tasks)):
+        if len(tasks) > 1:
+            tasks.append({"path": t["path"], "label": t["label"] + " [after " + os.path.basename(tasks[i - 1]["path"]) + "]",
+                          "after_other": tasks[i - 1]["path"]})
     return tasks
 
 
